@@ -39,16 +39,21 @@ func Pull[EntityT entity.Interface](def Definition, wrapper func(e *Entity) Enti
 		return err
 	}
 
+	// read the results up to the end, even after a failure: the remaining entities are merged
+	// anyway and the merging goroutine would stay blocked for ever on an abandoned channel
+	var firstErr error
 	for merge := range MergeAll(def, wrapper, repo, resolvers, remote, author) {
-		if merge.Err != nil {
-			return merge.Err
+		if firstErr != nil {
+			continue
 		}
-		if merge.Status == entity.MergeStatusInvalid {
-			return errors.Errorf("merge failure: %s", merge.Reason)
+		if merge.Err != nil {
+			firstErr = merge.Err
+		} else if merge.Status == entity.MergeStatusInvalid {
+			firstErr = errors.Errorf("merge failure: %s", merge.Reason)
 		}
 	}
 
-	return nil
+	return firstErr
 }
 
 // MergeAll will merge all the available remote Entity:
